@@ -4,6 +4,7 @@
   ending in every way (clean close, protocol error, handler panic, server-side close), in any overlap.
 -/
 import BitcaskVerif.Conc.ConnLimit
+import BitcaskVerif.Conc.AcceptBackoff
 
 namespace ConnLimit
 
@@ -113,3 +114,40 @@ example : (run (init 2) [.connect 1, .acquire, .acceptFail false, .acceptFail fa
     .connect 2, .acquire, .accept, .connect 3]).map (fun s => (s.handlers, s.pending, s.permits)) = some ([1, 2], [3], 0) := by decide
 
 end ConnLimit
+
+/-! ### the retry loop around accept(2) (`Listener::accept`) — how many failures in a row the listener survives -/
+
+namespace AcceptBackoff
+
+/-- **C15 (transient accept failures do not end the listener).** `k` failing accept(2) calls in a row, the last of
+    which still finds the back-off `min·2^(k-1)` at or below the maximum, followed by a connection: the call of
+    `Listener::accept` returns that connection after `k + 1` calls and `min·(2^k − 1)` ms of sleep (no `u64` wrap:
+    `min·2^k < 2^64`). Every call of `Listener::accept` starts again from `min`, so this holds for every later burst. -/
+theorem c15_backoff_survives (min max k : Nat) (rest : List Bool)
+    (hw : min * 2 ^ k < 2 ^ 64) (hm : k = 0 ∨ min * 2 ^ (k - 1) ≤ max) :
+    accept min max (List.replicate k false ++ true :: rest) = (.accepted, k + 1, min * (2 ^ k - 1)) :=
+  loop_fails_then_ok max k min rest hw hm
+
+/-- **C15 (the listener gives up exactly when the back-off has passed the maximum).** After `k` survived failures the
+    `(k+1)`-th failure in a row ends the listener iff it finds `min·2^k > max`. -/
+theorem c15_backoff_gives_up (min max k : Nat) (rest : List Bool)
+    (hw : min * 2 ^ k < 2 ^ 64) (hm : k = 0 ∨ min * 2 ^ (k - 1) ≤ max) (hg : max < min * 2 ^ k) :
+    accept min max (List.replicate k false ++ false :: rest) = (.gaveUp, k + 1, min * (2 ^ k - 1)) :=
+  loop_fails_then_give_up max k min rest hw hm hg
+
+/-- **C15 (edge: `min_backoff_ms = 0`).** The back-off never grows: the listener retries for ever without sleeping and
+    never gives up, whatever the maximum. -/
+theorem c15_backoff_zero_min (max k : Nat) :
+    accept 0 max (List.replicate k false) = (.waiting, k, 0) :=
+  loop_zero_never_gives_up max k
+
+-- non-vacuity / the two configurations that occur: the harness's server (10 ms, 100 ms) and the defaults of
+-- `net::Config` (500 ms, 64 s)
+example : accept 10 100 (List.replicate 4 false ++ [true]) = (.accepted, 5, 150) := by decide
+example : accept 10 100 (List.replicate 5 false ++ [true]) = (.gaveUp, 5, 150) := by decide
+example : accept 500 64000 (List.replicate 8 false ++ [true]) = (.accepted, 9, 127500) := by decide
+example : accept 500 64000 (List.replicate 9 false) = (.gaveUp, 9, 127500) := by decide
+/-- a wrap of the `u64`: from 2^63 the doubled back-off is 0, and the listener never gives up afterwards -/
+example : accept (2 ^ 63) (2 ^ 63) (List.replicate 6 false) = (.waiting, 6, 2 ^ 63) := by decide
+
+end AcceptBackoff
